@@ -1,10 +1,47 @@
-"""Registry of claimed checks -> MANIFEST.json (via tools_manifest.py)."""
-CHECKS = []
+"""Registry of claimed checks -> MANIFEST.json (via tools_manifest.py) and the ./check dispatcher."""
 
-_PENDING = "check not built yet in this round (work in progress; see DESIGN.md section 6 for the order of work)"
+_PY_NOTE = ("Trusted base: z3 5.1.0; the pysym proxy engine (engines/pysym: 64-bit bit-vector model of Python ints with interval "
+            "overflow guards, import-hook AST rewrite of pure conditional expressions, struct/bytearray shims); binja_test_mocks as the "
+            "Binary Ninja API. Every counterexample is replayed concretely against the unmodified code before it is reported.")
+
+CHECKS = [
+    {
+        "id": "C01", "engine": "pysym", "level": "exploration", "design_ref": "DESIGN.md section 4 / C01",
+        "technique": "symbolic execution of the real decoder and arch hooks over symbolic byte strings (z3 bit-vectors), one run per (prefix, opcode, length, tail) class; z3 decides each obligation",
+        "level_text": "Bounded symbolic exploration: for every (prefix bytes, opcode, buffer length) class all remaining bytes and the address are z3 variables; the real decode()/fusion()/arch hooks/emulator fetch run on them and z3 decides acceptance agreement, length bounds, trailing-byte and history independence and absence of unexpected exceptions for all values at once. Not a proof: tails are bounded (first tail byte from a set), history depth is 1.",
+        "level_note": _PY_NOTE,
+    },
+    {
+        "id": "C02", "engine": "pysym", "level": "translation_validation", "design_ref": "DESIGN.md section 4 / C02",
+        "technique": "symbolic round trip encode(decode(b)) == b decided by z3 over symbolic operand bytes per encoding class, plus re-decode text/IL equality",
+        "level_text": "Per encoding class the byte string is symbolic; the real decode and encode run on it and z3 decides byte-wise equality of the re-encoded string (all don't-care bits included), equality of re-decoded text, length and lifted IL, and that the text hook never demotes an accepted instruction.",
+        "level_note": _PY_NOTE,
+    },
+    {
+        "id": "C03", "engine": "pysym", "level": "translation_validation", "design_ref": "DESIGN.md section 4 / C03",
+        "technique": "symbolic execution of Emulator.execute_instruction with symbolic registers/memory (z3 arrays); read/write sets compared by z3 with the addressing rules applied to the rendered tokens",
+        "level_text": "For every (prefix, opcode, length) class the real emulator executes the lifted IL on fully symbolic state; the observed reads, writes and pointer-register deltas are compared (set equality decided by z3) with those the documented addressing rules assign to the rendered operand tokens.",
+        "level_note": _PY_NOTE + " Oracle: specs/operands.py + specs/isa.py (README addressing rules).",
+    },
+    {
+        "id": "C04", "engine": "pysym", "level": "translation_validation", "design_ref": "DESIGN.md section 4 / C04",
+        "technique": "symbolic execution of the real lifter+LLIL evaluator per encoding class; post-state compared by z3 with a z3py transcription of the README instruction tables (incl. frame condition over an arbitrary address)",
+        "level_text": "For every (prefix, opcode, length) class the real emulator runs on fully symbolic operands, registers, flags and memory; z3 decides equality with the documented result, C/Z, pointer/counter/stack effects and the frame condition (every other register, every other memory byte) for all values at full width. Bounded: I <= 2 (quick) / 3 (thorough), next instruction is NOP, documented forms only.",
+        "level_note": _PY_NOTE + " Oracle: specs/isa.py written from sc62015/pysc62015/README.md; reading notes are marked NOTE in that file.",
+    },
+]
+
 NOT_APPLICABLE = [
-    {"property_id": f"C{i:02d}", "reason": _PENDING} for i in range(1, 19) if i != 16
-] + [
     {"property_id": "C16", "reason": "snapshot save/load crosses zipfile/json/file I/O (Python) and a feature whose zip dependency is absent (Rust); not encodable, see DESIGN.md C16"},
 ]
+_PENDING = "check not built yet in this round (work in progress; see DESIGN.md section 6 for the order of work)"
+_claimed = {c["id"] for c in CHECKS} | {n["property_id"] for n in NOT_APPLICABLE}
+NOT_APPLICABLE += [{"property_id": f"C{i:02d}", "reason": _PENDING} for i in range(1, 19) if f"C{i:02d}" not in _claimed]
 NOT_APPLICABLE.sort(key=lambda d: d["property_id"])
+
+RUNNERS = {
+    "C01": ("decode_check", "main", ("C01",)),
+    "C02": ("decode_check", "main", ("C02",)),
+    "C03": ("isa_check", "main", ("C03",)),
+    "C04": ("isa_check", "main", ("C04",)),
+}
